@@ -48,7 +48,8 @@ impl<V> Node<V> {
         for i in 0..self.children.len() {
             let prefix_size = common_prefix_char_size(regex, self.children[i].regex());
 
-            if prefix_size > max_prefix_size {
+            // A leaf holding exactly the node prefix shares no longer prefix, but it is where this pattern lives
+            if prefix_size > max_prefix_size || (max_prefix_item.is_none() && self.children[i].regex() == regex) {
                 max_prefix_size = prefix_size;
                 max_prefix_item = Some(i);
             }
